@@ -36,7 +36,7 @@ func init() {
 			{Name: "helper that admits on the access-denied edge", File: "proxy/http_proxy.go", Old: "\tif t.AccessDeniedHTTP(r) {\n\t\thttp.Error(w, \"access denied\", http.StatusForbidden)\n\t\treturn\n\t}\n\n\tif !t.Authorized(r, w, p.AuthSchemes) {\n\t\thttp.Error(w, \"authorization failed\", http.StatusUnauthorized)\n\t\treturn\n\t}\n", New: "\tif !p.admit(w, r, t) {\n\t\treturn\n\t}\n", Expect: "C12.G1",
 				More: []repl{{"func key(code int) string {", "func (p *HTTPProxy) admit(w http.ResponseWriter, r *http.Request, t *route.Target) bool {\n\tif t.AccessDeniedHTTP(r) {\n\t\tw.Header().Set(\"X-Denied\", \"1\")\n\t}\n\tif !t.Authorized(r, w, p.AuthSchemes) {\n\t\thttp.Error(w, \"authorization failed\", http.StatusUnauthorized)\n\t\treturn false\n\t}\n\treturn true\n}\n\nfunc key(code int) string {"}}},
 			{Name: "benign: gate helper", File: "proxy/http_proxy.go", Old: "\tif t.AccessDeniedHTTP(r) {\n\t\thttp.Error(w, \"access denied\", http.StatusForbidden)\n\t\treturn\n\t}", New: "\tdenied := t.AccessDeniedHTTP(r)\n\tif denied {\n\t\thttp.Error(w, \"access denied\", http.StatusForbidden)\n\t\treturn\n\t}", Expect: ""},
-		}, append(c12MoreMutants(), c12Round2Mutants()...)...),
+		}, append(c12MoreMutants(), append(c12Round2Mutants(), c12Round5Mutants()...)...)...),
 	})
 }
 
